@@ -12,7 +12,7 @@ LEVEL = 'exploration'
 TIERS = {'quick': 5000, 'thorough': 200000}
 RULE = ('two families, each through the real TcpTransport (on simulated socket+select modules) and the real TcpTransportAsync (real asyncio streams and '
         'async_timeout on a simulated asyncio.Transport): (a) transport scripts against a raw byte peer that writes seeded chunks with pauses: reads of '
-        'seeded sizes and timeouts (None with data eventually arriving, small), writes against small send buffers and a slow reader, EOF, close twice, '
+        'seeded sizes and timeouts (None with data eventually arriving, small), writes against small send buffers and a slow reader, EOF, a peer reset (RST) followed by close() and connect(), close twice, '
         'reconnect; oracles: each read returns <= n bytes, the concatenation of reads equals the peer\'s bytes in order, an empty wire raises '
         'TcpTimeoutException not before the timeout and later data still arrives, bytes reported as written reach the peer in order; (b) whole device '
         'sessions (connect, shell, list, stat, pull, push) over TCP compared with ground truth and with the same session over the in-memory transport. '
@@ -20,7 +20,7 @@ RULE = ('two families, each through the real TcpTransport (on simulated socket+s
         'distinct = event-log digests')
 ASSUMPTIONS = ['the deciding runs use a model of the kernel endpoint (real sockets cannot be replayed); the model is compared with the loopback stack by ./check selftest-sockmodel, outside the registered checks',
                'real: TcpTransport, TcpTransportAsync, asyncio.StreamReader/StreamWriter/StreamReaderProtocol, async_timeout']
-EXPECT_PROBES = {'all': ['c18_script', 'c18_session', 'c18_timeout_seen', 'c18_short_read', 'c18_reconnect', 'c18_double_close', 'short_writes', 'backpressure_pause']}
+EXPECT_PROBES = {'all': ['c18_script', 'c18_session', 'c18_timeout_seen', 'c18_short_read', 'c18_reconnect', 'c18_double_close', 'short_writes', 'backpressure_pause', 'c18_peer_reset']}
 REAL_VS_STUB = {'real': ['adb_shell.transport.tcp_transport.TcpTransport', 'adb_shell.transport.tcp_transport_async.TcpTransportAsync', 'asyncio streams + async_timeout',
                          'adb_shell.adb_device[_async] (session family)'],
                 'stub': ['kernel socket + select (simadb.simsock)', 'asyncio.Transport + event loop selector (simadb.simsock / aioloop)', 'peer: raw byte script or adbd model', 'clock']}
@@ -64,10 +64,35 @@ def gen_script(g):
     return chunks, ops
 
 
+def gen_reset_script(g):
+    """The peer resets the connection (RST) during a read or a write; then close() and connect() must give a working transport again."""
+    chunks = [[g.pick([0.0, 0.001]), g.bytes(g.pick([24, 100, 1000])).hex()] for _ in range(g.int(2, 4))]
+    ops = [{'op': 't_connect', 'timeout': g.pick([None, 2.0])}]
+    for _ in range(g.int(0, 2)):
+        ops.append({'op': 't_read', 'n': g.pick([24, 4096]), 'timeout': 2.0})
+    # the call at this index is hit by the reset
+    fault_at = len(ops) - 1 + g.int(0, 1)
+    ops.append({'op': g.pick(['t_read', 't_write']), 'n': 100, 'timeout': 2.0, 'content': {'seed': 3, 'size': 50, 'alpha': 'bin'}})
+    ops.append({'op': g.pick(['t_read', 't_write']), 'n': 100, 'timeout': 2.0, 'content': {'seed': 4, 'size': 50, 'alpha': 'bin'}})
+    ops.append({'op': 't_close'})
+    if g.chance(0.5):
+        ops.append({'op': 't_close'})
+    ops.append({'op': 't_connect', 'timeout': g.pick([None, 2.0])})
+    for _ in range(8):
+        ops.append({'op': 't_read', 'n': 4096, 'timeout': 3.0})
+    ops.append({'op': 't_close'})
+    return chunks, ops, fault_at
+
+
 def generate(seed, tier):
     g = Gen(seed)
     api = g.pick(['sync', 'async'])
     tcp = {'sndbuf': g.pick([64, 512, 4096, 65536]), 'drain': g.pick([1, 64, 1000, 100000]), 'drain_every': g.pick([1e-5, 1e-3, 0.02]), 'high_water': g.pick([64, 4096, 65536])}
+    if g.chance(0.12):
+        chunks, ops, fault_at = gen_reset_script(g)
+        scn = {'api': api, 'transport': 'tcp', 'tcp': tcp, 'device': {'raw_peer': True, 'script': chunks}, 'actors': [ops],
+               'config': {'frag': g.pick(['whole', 'mixed']), 'call_cost': 1e-5, 'shadow_store': False, 'reset_at_op': fault_at}, 'object': {'banner': 'x'}}
+        return {'seed': seed, 'scn': scn, 'family': 'script', 'reset': True}
     if g.chance(0.45):
         chunks, ops = gen_script(g)
         scn = {'api': api, 'transport': 'tcp', 'tcp': tcp, 'device': {'raw_peer': True, 'script': chunks}, 'actors': [ops],
@@ -89,6 +114,10 @@ def generate(seed, tier):
     return {'seed': seed, 'scn': scn, 'family': 'session'}
 
 
+def _reconnected_since(recs, a, i):
+    return any(r['spec']['op'] == 't_connect' and r['ok'] for r in recs[a + 1:i])
+
+
 def eval_script(case, tapes, out):
     scn = case['scn']
     run, tape = run_scn(case, 'scn', 0, tapes)
@@ -101,6 +130,9 @@ def eval_script(case, tapes, out):
     sess_bytes = bytes(b''.join(bytes.fromhex(h) for (_, h) in scn['device']['script']))
     written = bytearray()
     sessions = []          # bytes read per connection
+    broken = False
+    last_connect_idx = 0
+    reset_op = scn['config'].get('reset_at_op', 1 << 30)
     last_read_timed_out = {}
     flushed = False
     unknown = None
@@ -114,6 +146,8 @@ def eval_script(case, tapes, out):
             break
         if k == 't_connect':
             closes_in_row = 0
+            broken = False
+            last_connect_idx = i
             if sessions:
                 pr['c18_reconnect'] = 1
             if not r['ok']:
@@ -126,6 +160,11 @@ def eval_script(case, tapes, out):
                 pr['c18_double_close'] = 1
             if not r['ok']:
                 probs.append(O.P('close-not-idempotent', 'op#%d close() #%d in a row raised %s: %s' % (i, closes_in_row, r['exc'], r.get('msg'))))
+        elif k in ('t_read', 't_write') and (broken or run.link.faults_fired and i >= reset_op and not _reconnected_since(recs, reset_op, i)):
+            # the peer reset the connection: until the next connect() any error is legitimate
+            broken = True
+            pr['c18_peer_reset'] = 1
+            continue
         elif k == 't_read':
             if closes_in_row or not sessions:
                 continue        # reading a closed transport: outside the statement
@@ -180,7 +219,9 @@ def eval_script(case, tapes, out):
                 if len(got) + pending != handed:
                     probs.append(O.P('lost-after-timeout' if tmo else 'bytes-differ', 'connection #%d: %d bytes left the peer and were consumed from the socket, bulk_read returned %d (+%d still buffered)' % (si, handed, len(got), pending)))
         rec = bytes(peer.received)
-        if unknown is not None:
+        if case.get('reset'):
+            pass        # writes around the reset may or may not have left the host: not comparable
+        elif unknown is not None:
             w = bytes(written)
             tail = rec[len(w):]
             if rec[:len(w)] != w[:len(rec)] or (len(rec) > len(w) and tail != unknown[:len(tail)] and not tail.startswith(unknown)):
@@ -189,6 +230,11 @@ def eval_script(case, tapes, out):
             probs.append(O.P('write-lost', 'the peer received %d bytes that are not a prefix of the %d bytes bulk_write reported as written' % (len(rec), len(written))))
         elif len(rec) < len(written) and flushed:
             probs.append(O.P('write-lost', 'bulk_write reported %d bytes written in total; the peer received only %d by the time the connection was closed and flushed' % (len(written), len(rec))))
+    if case.get('reset') and not run.abort and len(sessions) >= 2:
+        # after close() + connect() the transport must be connected to the (new) peer: its bytes arrive again
+        tried = sum(1 for r in recs[last_connect_idx + 1:] if r['spec']['op'] == 't_read' and not r.get('skipped'))
+        if len(sessions[-1]) == 0 and len(sess_bytes) > 0 and tried >= 2:
+            probs.append(O.P('reconnect-failed', 'after the peer reset the connection, close() and connect() returned normally but nothing can be read from the new connection'))
     if tmo:
         pr['c18_timeout_seen'] = 1
     if short:
